@@ -35,6 +35,18 @@ PROPS = {
                 quick=dict(runs=640, budget_s=100, min_runs=60),
                 thorough=dict(runs=12000, budget_s=900, min_runs=600),
                 watchdog_s=180, spot=3),
+    'C09': dict(engine='matpoint_sim',
+                quick=dict(runs=96, budget_s=150, min_runs=24),
+                thorough=dict(runs=1600, budget_s=1500, min_runs=200),
+                watchdog_s=400, spot=2),
+    'C10': dict(engine='matpoint_sim',
+                quick=dict(runs=96, budget_s=150, min_runs=24),
+                thorough=dict(runs=1600, budget_s=1500, min_runs=200),
+                watchdog_s=400, spot=2),
+    'C11': dict(engine='matpoint_sim',
+                quick=dict(runs=96, budget_s=150, min_runs=24),
+                thorough=dict(runs=1600, budget_s=1500, min_runs=200),
+                watchdog_s=400, spot=2),
 }
 
 
